@@ -245,7 +245,7 @@ def tlc_sharded(module, consts, invs, props, nshards, workers_each, timeout, tag
     def one(i):
         c = dict(consts)
         c["Shard"], c["NbShards"] = i, nshards
-        return run_tlc(module, cfg("Spec", c, invs, props), workers=workers_each, timeout=timeout, tag="%s-s%d" % (tag, i), heap="3g")
+        return run_tlc(module, cfg("Spec", c, invs, props), workers=workers_each, timeout=timeout, tag="%s-s%d" % (tag, i), heap="2500m" if nshards > 8 else "3g")
     if nshards == 1:
         return one(0)
     with ThreadPoolExecutor(max_workers=nshards) as ex:
